@@ -9,7 +9,9 @@ L5 model for C14: derived attributes.
 * expression trees over component ids, constants and an arbitrary binary operator;
 * the component table of a `Data` object (ordered dict), `Data.__getitem__` on derived components,
   `remove_component` with its recursion as coded, `reorder_components` as coded (the table order is
-  the real component order), `update_id` as coded + the F14 repair;
+  the real component order), `update_id` as coded + the F14 repair; the public calls as repaired by
+  F20 / F21 / F22 (`removeCall`, `addComp`, `updateIdCall`: `none` = the `ValueError` raised before
+  anything changes) and the call state machine `implCall` / `specCall` of the history family;
 * the text-expression grammar of the `ParsedCommand` family (tokens, printer, parser, evaluator).
 
 Core Lean only.  `Impl` = the functions named after the Python code, `Spec` = `spec*`.
@@ -403,7 +405,10 @@ def Link.replace [DecidableEq κ] (old new : κ) : Link κ ω α → Link κ ω 
   | .parsed p => .parsed (p.replace old new)
 
 inductive Comp (κ ω α : Type) where
-  | prim (a : SArr α)                -- stored / pixel / world component: an array of the data shape
+  /-- `Component` holding an array of the data shape.  `coord = true`: a `CoordinateComponent` (pixel
+  or world axis, created and managed by the data set itself); `false`: a stored (main) component.
+  The flag does not influence any value; it decides which public calls the data set refuses. -/
+  | prim (a : SArr α) (coord : Bool)
   | derived (l : Link κ ω α)         -- DerivedComponent
 
 /-- `Data._components`: an ordered dict (keys unique, insertion order). -/
@@ -430,7 +435,7 @@ def Table.ofPairs (ps : List (κ × Comp κ ω α)) : Table κ ω α :=
   ps.foldl (fun t p => Table.set t p.1 p.2) []
 
 def Comp.fromIds : Comp κ ω α → Option (List κ)
-  | .prim _ => none
+  | .prim _ _ => none
   | .derived l => some l.fromIds
 
 /-- Operator / function interpretation and the view under which values are requested. -/
@@ -461,7 +466,7 @@ def getData (I : Interp ω α) (v : List NAxis) (scalarShape : List Nat) :
   | fuel + 1, t, k =>
     match t.find k with
     | none => .error .incompatible
-    | some (.prim a) => .ok (toVal (applyViewN a v))
+    | some (.prim a _) => .ok (toVal (applyViewN a v))
     | some (.derived (.binary e)) => e.evalWith I.opf (getData I v scalarShape fuel t)
     | some (.derived (.func fs f ravel)) =>
       match sequenceE (fs.map (getData I v scalarShape fuel t)) with
@@ -483,7 +488,7 @@ def specAt (I : Interp ω α) : Nat → Table κ ω α → List Int → κ → O
   | fuel + 1, t, idx, k =>
     match t.find k with
     | none => none
-    | some (.prim a) => some (a.atI idx)
+    | some (.prim a _) => some (a.atI idx)
     | some (.derived (.binary e)) => e.evalPt I.opf (specAt I fuel t idx)
     | some (.derived (.func fs f _)) =>
       (mapM' (specAt I fuel t idx) fs).map (I.fnf f)
@@ -496,7 +501,7 @@ def refsOk : Nat → Table κ ω α → κ → Bool
   | fuel + 1, t, k =>
     match t.find k with
     | none => false
-    | some (.prim _) => true
+    | some (.prim _ _) => true
     | some (.derived l) => l.fromIds.all (refsOk fuel t)
 
 /-! ### `remove_component` -/
@@ -561,9 +566,9 @@ def specReorder (t : Table κ ω α) (ks : List κ) : Option (Table κ ω α) :=
 
 /-! ### `update_id` -/
 
-/-- **Impl**: `Data.update_id(old, new)`: the key is replaced in place through
-`OrderedDict(...)`; as repaired (F14) every derived component's link has `old` replaced by `new`.
-`repaired = false` is the code as found. -/
+/-- **Impl**: the body of `Data.update_id(old, new)` (behind the refusal test of `updateIdCall`):
+the key is replaced in place through `OrderedDict(...)`; as repaired (F14) every derived component's
+link has `old` replaced by `new`.  `repaired = false` is the code as found. -/
 def updateId (repaired : Bool) (t : Table κ ω α) (old new : κ) : Table κ ω α :=
   if new = old then t else
   if t.keys.contains old then
@@ -583,6 +588,114 @@ def Comp.rename (old new : κ) : Comp κ ω α → Comp κ ω α
 and inside every defining expression — and nothing else changes. -/
 def specRename (old new : κ) (t : Table κ ω α) : Table κ ω α :=
   t.map fun p => (if p.1 = old then new else p.1, p.2.rename old new)
+
+/-! ### the public calls as repaired (F20, F21, F22): refusals
+
+`Data.remove_component`, `Data.add_component` and `Data.update_id` raise `ValueError` **before
+changing anything** on three constructs that used to corrupt the data set.  A refused call is
+`none`; the data set after it is the data set before it (`Table.after`). -/
+
+def Comp.isCoord : Comp κ ω α → Bool
+  | .prim _ co => co
+  | .derived _ => false
+
+def Comp.isDerived : Comp κ ω α → Bool
+  | .prim _ _ => false
+  | .derived _ => true
+
+/-- **Impl**: the public `Data.remove_component(k)` as repaired (F20): `ValueError` when `k` names a
+pixel / world `CoordinateComponent` (they are managed by the data set itself); otherwise the
+recursion `removeComp` (`_remove_component`); an identifier that is not in the data set is a no-op. -/
+def removeCall (fuel : Nat) (t : Table κ ω α) (k : κ) : Option (Table κ ω α) :=
+  match t.find k with
+  | some c => if c.isCoord then none else some (removeComp fuel t k)
+  | none => some (removeComp fuel t k)
+
+/-- The kind test of `add_component` (F21) for an identifier that is in use: no replacement of or
+by a coordinate component, and no derived ↔ regular change. -/
+def kindClash (cur new : Comp κ ω α) : Bool :=
+  cur.isCoord || new.isCoord || (cur.isDerived != new.isDerived)
+
+/-- **Impl**: `Data.add_component(c, k)` as repaired (F21): `self._components[k] = c` — overwrite in
+place or append —, refused with `ValueError` when `k` is in use for a component of another kind. -/
+def addComp (t : Table κ ω α) (k : κ) (c : Comp κ ω α) : Option (Table κ ω α) :=
+  match t.find k with
+  | some cur => if kindClash cur c then none else some (t.set k c)
+  | none => some (t.set k c)
+
+/-- **Impl**: `Data.add_component_link(link, k)`: every input must already be a component of this
+data set (`ValueError` otherwise), then `add_component(DerivedComponent(self, link), k)`. -/
+def addLink (t : Table κ ω α) (k : κ) (c : Comp κ ω α) : Option (Table κ ω α) :=
+  match c.fromIds with
+  | some fs => if fs.all t.keys.contains then addComp t k c else none
+  | none => addComp t k c
+
+/-- **Impl**: `Data.update_id(old, new)` as repaired (F14 + F22): nothing happens for `new is old`;
+`ValueError` when `new` is already a component of the data set (whether or not `old` is one);
+otherwise the rebuild `updateId`. -/
+def updateIdCall (t : Table κ ω α) (old new : κ) : Option (Table κ ω α) :=
+  if new = old then some t
+  else if t.keys.contains new then none
+  else some (updateId true t old new)
+
+/-- The data set after a call: a refused call leaves it as it was. -/
+def Table.after (t : Table κ ω α) (r : Option (Table κ ω α)) : Table κ ω α :=
+  match r with
+  | some t' => t'
+  | none => t
+
+/-- The calls of a history (the `hist` family of the driver executes exactly these). -/
+inductive Call (κ ω α : Type) where
+  | add (k : κ) (c : Comp κ ω α)       -- add_component (stored) / add_component_link (inputs checked)
+  | addRaw (k : κ) (c : Comp κ ω α)    -- add_component(DerivedComponent(data, link), cid): no input check
+  | remove (k : κ)
+  | update (old new : κ)
+  | reorder (pref : List κ) (exact : Bool)   -- reorder_components(pref [+ the other ids in table order])
+
+/-- The argument list of `reorder_components`: the listed identifiers, followed (unless `exact`)
+by the identifiers of the table that are not listed, in table order. -/
+def reorderArg (t : Table κ ω α) (pref : List κ) (exact : Bool) : List κ :=
+  if exact then pref else pref ++ t.keys.filter fun k => !(pref.contains k)
+
+/-- **Impl** of one call: `none` = the call raises `ValueError`. -/
+def implCall (t : Table κ ω α) : Call κ ω α → Option (Table κ ω α)
+  | .add k c => addLink t k c
+  | .addRaw k c => addComp t k c
+  | .remove k => removeCall (t.length + 1) t k
+  | .update o n => updateIdCall t o n
+  | .reorder pref ex => reorderComps t (reorderArg t pref ex)
+
+/-- **Spec** of storing a component under an identifier: a new identifier is appended, an
+identifier in use keeps its place and gets the new component — refused when that would replace a
+coordinate component, install one, or turn a derived component into a regular one or back. -/
+def specSet (t : Table κ ω α) (k : κ) (c : Comp κ ω α) : Option (Table κ ω α) :=
+  match t.find k with
+  | some cur => if kindClash cur c then none else some (t.set k c)
+  | none => some (t.set k c)
+
+/-- **Spec** of one call.  Adding sets the entry (refused on a missing input of a checked link, or
+on an identifier in use for another kind of component); removal deletes exactly the dependency
+closure (refused for a coordinate component, nothing for an unknown identifier); replacing an
+identifier renames it everywhere — keys and defining expressions — and changes nothing else
+(refused when the new identifier already names a component); reordering lists the same components
+in the requested order (refused unless the list is a rearrangement of the identifiers). -/
+def specCall (t : Table κ ω α) : Call κ ω α → Option (Table κ ω α)
+  | .add k c =>
+    match c.fromIds with
+    | some fs => if fs.all t.keys.contains then specSet t k c else none
+    | none => specSet t k c
+  | .addRaw k c => specSet t k c
+  | .remove k =>
+    match t.find k with
+    | some c =>
+      if c.isCoord then none
+      else some (t.filter fun p => !((depClosure t k).contains p.1))
+    | none => some t
+  | .update o n =>
+    if o = n then some t
+    else if t.keys.contains n then none
+    else if t.keys.contains o then some (specRename o n t) else some t
+  | .reorder pref ex => specReorder t (reorderArg t pref ex)
 
 end table
 
